@@ -298,7 +298,7 @@ def gen_cases(tier, seed):
 def run_shard(spec, emit):
     tier, seed, shard, nshards = spec["tier"], spec["seed"], spec["shard"], spec["nshards"]
     cases = [c for i, c in enumerate(gen_cases(tier, seed)) if i % nshards == shard]
-    deadline = time.monotonic() + (85 if tier == "quick" else 2400)
+    deadline = time.monotonic() + (85 if tier == "quick" else 300)
     samples = 0
     for case in cases:
         if time.monotonic() > deadline:
